@@ -4,6 +4,9 @@ cd "$(dirname "$0")/.."
 prop="$1"; rs="$2"
 maxf=$(./build/vg/vsim --prop $prop --print "$rs" | awk -F'[ \t]' '/^op/ {if (NF>m) m=NF} END {print m+0}')
 if [ "$maxf" -gt 780 ]; then echo "VG-SKIP $prop $rs"; exit 0; fi
+# memcheck costs about 50x: runs of more than 300k node visits (measured natively first) are left to the other variants
+nodes=$(./build/vg/vsim --prop $prop --show "$rs" 2>/dev/null | grep -o "nodes=[0-9]*" | head -1 | cut -d= -f2)
+if [ "${nodes:-0}" -gt 300000 ]; then echo "VG-SKIP $prop $rs"; exit 0; fi
 out=$(valgrind -q --error-exitcode=97 --trace-children=yes ./build/vg/vsim --prop $prop --show "$rs" 2>&1)
 if echo "$out" | grep -q "uninitialised\|Invalid read\|Invalid write\|Invalid free\|Mismatched free"; then
   mkdir -p replays/C10
